@@ -262,6 +262,7 @@ def check_C05(ctx):
         late = [s for s in scen if any(k in s['id'] for k in keep)]
         rest = [s for s in scen if not any(k in s['id'] for k in keep)]
         scen = late + rest[ctx.seed % 5::5]
+    scen += vt.tlc_generate(ctx, 'GenRun', 'C05', 0)       # end-to-end samples at request level
     wire_family(ctx, 'C05', scen, rule, nontrivial=delivered_something)
     ctx.extra['rule'] = rule + '; plus ' + (WIRE_RULE % 'C05All (per-hop delay assignments, duplicates with larger delay, production-scale timers)')
     vt.write_evidence(ctx, 'model_checking', ctx_rule(ctx), exhaustive=not ctx.quick())
